@@ -324,6 +324,19 @@ class C04(Property):
                    'substance key = substance name (rsys built from a list of keys)',
                    'f_cb / rate_exprs_cb are lambdified float code: compared at rational points with relative tolerance 1e-9 '
                    '(absolute 1e-12 x sum of |terms| where the exact value cancels)')
+    clauses_without_theorem = (
+        'active (Expr-valued) substitutions of get_odesys (_active_subst, _subst_pk, _reg_unique(sv)): not modelled, no theorem, not generated',
+        'user-supplied CSTR tuples cstr=(fr_key, fc_dict) / arbitrary rates_kw: only the shape ("feedratio", {s: "fc_"+s}) over all '
+        'substances (cstr=True, and the same tuple for _create_odesys) is modelled',
+        'unit registries (unit_registry=, output_*_unit, dedimensionalisation) and constants=: not modelled (C10 treats units)',
+        'non-polynomial rate expressions (Arrhenius, Eyring, Radiolytic, ...): C16; here every parameter is mass-action with a '
+        'rational / named / symbolic constant',
+        'user-supplied substance_symbols / parameter_symbols / time_symbol of _create_odesys: defaults only',
+        'odesys.f_cb and extra[\'rate_exprs_cb\'] (lambdified float code): correspondence and oracle at rational points only',
+        'the order of the CSTR keys inside param_names (a Python set): compared as a set, no theorem',
+        'linear_invariants handed to SymbolicSys (C05) and variables[\'time\']: not part of the model',
+        'when _create_odesys accepts: inversion lemma only (buildRhs\'_ok), no success characterisation like get_odesys_accepts',
+        'the link model <-> Python (both builders, all rejections) is translation validation per generated system, not a theorem')
     anchors = (('chempy/kinetics/ode.py', 'get_odesys'), ('chempy/kinetics/ode.py', '_create_odesys'),
                ('chempy/chemistry.py', 'Reaction.rate_expr'), ('chempy/chemistry.py', 'Reaction.rate'),
                ('chempy/reactionsystem.py', 'ReactionSystem.rates'),
